@@ -316,6 +316,16 @@ def obligations(tier, seed):
         for n in (79, 80, 100):
             out.append(ob('C07/flowspec/%s/comp=5/long-rule/n=%d' % (d, n), 'ob_flowspec',
                           {'dir': d, 'comp': 5, 'expr': '|'.join('=%d' % (1000 + i) for i in range(n))}))
+        # a rule of exactly 239 / 240 / 241 / 242 octets (the switch to the two-octet length is at 240)
+        for extra, total in (('=80', 240), ('=80|=81', 242)):
+            out.append(ob('C07/flowspec/%s/comp=5/rule-octets=%d' % (d, total), 'ob_flowspec',
+                          {'dir': d, 'comp': 5, 'expr': '|'.join('=%d' % (1000 + i) for i in range(79)) + '|' + extra}))
+        out.append(ob('C07/flowspec/%s/comp=5/rule-octets=239' % d, 'ob_flowspec',
+                      {'dir': d, 'comp': 5, 'expr': '|'.join('=%d' % (1000 + i) for i in range(78)) + '|=80|=81'}))
+        # the same term more than once in a list of alternatives
+        for expr in ('=80|=443|=80', '>1024|<10|>1024', '=80|=80', '=80|=443|=80|=443'):
+            out.append(ob('C07/flowspec/%s/comp=5/repeated-term/%s' % (d, expr), 'ob_flowspec',
+                          {'dir': d, 'comp': 5, 'expr': expr, 'also': {'6': '=1'}}))
         out.append(ob('C07/flowspec/%s/comp=5/long-rule/n=80/then-second-rule' % d, 'ob_flowspec',
                       {'dir': d, 'comp': 5, 'expr': '|'.join('=%d' % (1000 + i) for i in range(80)), 'second': True}))
         out.append(ob('C07/flowspec/%s/two-rules' % d, 'ob_flowspec', {'dir': d, 'comp': 1, 'plen': 24, 'second': True}))
